@@ -186,7 +186,9 @@ func Solve(o *Obligation, cfg *SolverCfg, idx int) {
 	renderMu.Lock()
 	asserts := append([]*Term{}, o.Hyps...)
 	if o.Expect == "unsat" {
-		asserts = append(asserts, Not(o.Goal))
+		// the skolemised negation (equisatisfiable): its ground terms take part in the bounded
+		// unfolding of recursive specification functions, which a bound variable cannot
+		asserts = append(asserts, negateGoal(skolemizeGoal(o.Goal)))
 	}
 	sc := &Script{Asserts: asserts, Want: o.Inputs, RecDefs: o.Recs, MBQI: o.Expect == "sat"}
 	text := sc.Render()
